@@ -90,19 +90,20 @@ type Input struct {
 	Msg      string `json:"msg,omitempty"`       // text form of the structure
 	DeltaSec int64  `json:"delta_sec,omitempty"` // time stamp = now + delta
 	// c2m / pipe
-	Key   string   `json:"key,omitempty"`
-	MKI   string   `json:"mki,omitempty"`
-	SSRCs []uint32 `json:"ssrcs,omitempty"`
-	ROCs  []uint32 `json:"rocs,omitempty"`
-	Steps []Step   `json:"steps,omitempty"`
-	Strict bool    `json:"strict,omitempty"` // every intact delivery must decrypt (sender in order, gaps < 2^15)
+	Key    string   `json:"key,omitempty"`
+	MKI    string   `json:"mki,omitempty"`
+	SSRCs  []uint32 `json:"ssrcs,omitempty"`
+	ROCs   []uint32 `json:"rocs,omitempty"`
+	Steps  []Step   `json:"steps,omitempty"`
+	Strict bool     `json:"strict,omitempty"` // every intact delivery must decrypt (sender in order, gaps < 2^15)
 	// admit
 	Cfg [4]bool  `json:"cfg,omitempty"`
 	Trs []string `json:"trs,omitempty"`
 	// e2e
-	E2E   *E2EInput   `json:"e2e,omitempty"`
-	Multi *MultiInput `json:"multi,omitempty"`
-	Raw string    `json:"raw,omitempty"`
+	E2E    *E2EInput    `json:"e2e,omitempty"`
+	Multi  *MultiInput  `json:"multi,omitempty"`
+	Switch *SwitchInput `json:"switch,omitempty"`
+	Raw    string       `json:"raw,omitempty"`
 }
 
 // Step is one pipeline operation.
@@ -1070,7 +1071,7 @@ func runCorpus(c *corr.Ctx) {
 				c.Note("corpus file " + filepath.Base(f) + ": " + e.Error())
 				continue
 			}
-			if (in.Kind == "e2e" || in.Kind == "multi") && os.Getenv("VERIF_SEC_ONLY") == "unit" {
+			if (in.Kind == "e2e" || in.Kind == "multi" || in.Kind == "switch") && os.Getenv("VERIF_SEC_ONLY") == "unit" {
 				continue
 			}
 			replayNamed(c, &in, "corpus-"+strings.TrimSuffix(filepath.Base(f), ".json"))
